@@ -389,6 +389,30 @@ def run(F, rep, tier):
                 kind = 'the shared default of the dict' if any(o[0] == 'payload' and 'Dict' in str(o[1:4]) for o in bad) else ('a copy of the element' if any(o[0] == 'call' and o[1].endswith('clone') for o in bad) else 'a value that is not the stored element')
                 rep.viol('R1.10', '%s|slot|%s' % (w, sorted(str(o[:2])[:50] for o in bad)[:1]), '%s descends into %s (%s): the write does not land in the addressed slot - it changes a value shared by every other absent key, or works on a second copy that keeps the collection shared' % (w, kind, sorted(str(o[:2]) for o in bad)[:2]), c.loc())
     rep.floor('R1.10', 'recursive descents', n110, 14)
+    # reading the old value of `(d[k] = fallback) op= v` evaluates the fallback only when the key is absent: the evaluate call of that
+    # arm is not on every path from the dictionary lookup to the result (an eagerly evaluated fallback mutates variables the statement
+    # does not address, e.g. `(d['a'] = pop q) += 1` with 'a' present)
+    ela = 'eval::eval_lvalue_as_obj'
+    if F.has_fn(ela):
+        eb_ = F.body(ela)
+        gets = [c for c in eb_.calls if c.target.rsplit('::', 1)[-1] == 'get' and 'HashMap' in c.target]
+        evs = [c for c in eb_.calls if c.target == 'eval::evaluate']
+        verdicts = []
+        for ev_ in evs:
+            related = [g for g in gets if eb_.dominates(g.bb, ev_.bb) or eb_.dominates(ev_.bb, g.bb)]
+            if not related:
+                continue
+            g = related[0]
+            first, second = (g, ev_) if eb_.dominates(g.bb, ev_.bb) else (ev_, g)
+            # lazily evaluated: some path from the lookup to a return avoids the evaluate call
+            rets = set(eb_.return_blocks())
+            lazy = first is g and not eb_.every_path_passes(g.bb, rets, {ev_.bb})
+            verdicts.append((lazy, ev_))
+        if verdicts and all(v for v, _e in verdicts):
+            rep.ok('R1.5', 'eval_lvalue_as_obj fallback', 'evaluated only on the path where the key is absent')
+        elif verdicts:
+            bad_ = [e for v, e in verdicts if not v][0]
+            rep.viol('R1.5', ela + '|eager-fallback', 'the default expression of `(d[k] = fallback) op= v` is evaluated on every path, even when the key is present: its side effects (pop, consume, counters) hit variables the statement never addresses', bad_.loc())
     # ---------------- R1.11
     rep.rule('R1.11', 'whether a value is shared never decides a result: Rc::get_mut / strong_count / weak_count / try_unwrap / is_unique on a payload '
              'handle occur only in the reviewed "drain if unique, else iterate a copy" helpers (iter.rs) and on stream handles (advance only a '
